@@ -611,8 +611,8 @@ pub fn run(args: &Args) -> Report {
         cases.push(Case { try_unbounded: false, max_k: u32::MAX, label: format!("{} | local produces {} B, peer script {:?}, peer window {}, lazy_ack={}", sc.name, sc.local_out, sc.peer, sc.peer_rwnd, sc.lazy_ack), exec: Box::new(move |r| exec(&sc, r)) });
     }
     let plan = Plan {
-        ks: if thorough { vec![0, 1, 2, 3] } else { vec![0, 1, 2] },
-        env: if thorough { 3 } else { 2 },
+        ks: if thorough { vec![0, 1, 2, 3, 4, 5] } else { vec![0, 1, 2] },
+        env: if thorough { 4 } else { 2 },
         fault: 0,
         total_wall: Duration::from_secs(if thorough { 1500 } else { 25 }),
         max_execs_per_case: 20_000_000,
